@@ -437,6 +437,26 @@ func (en *Engine) checkEffects(fn *ssa.Function, ct *FuncContract, prop string) 
 			for _, c := range bad {
 				out = append(out, effResult{fn: key, name: key + "/effects.onlywrites:" + c, what: "component " + c + " is written below " + key + " but is not in its frame", ok: false, where: writers(c)})
 			}
+		case "nocomp":
+			// none of the listed components (ghost state such as stdout, by substring) is written
+			if eff.all {
+				out = append(out, effResult{fn: key, name: key + "/effects.nocomp:unknown", what: "the write effects of " + key + " cannot be bounded (dynamic call)", ok: false})
+				continue
+			}
+			bad := []string{}
+			for _, comp := range sortedKeys(eff.comps) {
+				for _, a := range ec.Args {
+					if strings.Contains(comp, a) {
+						bad = append(bad, comp)
+					}
+				}
+			}
+			if len(bad) == 0 {
+				out = append(out, effResult{fn: key, name: key + "/effects.nocomp(" + strings.Join(ec.Args, ",") + ")", what: "no function reachable from " + key + " writes " + strings.Join(ec.Args, ", "), ok: true, scanned: scanned, sites: sites})
+			}
+			for _, c := range bad {
+				out = append(out, effResult{fn: key, name: key + "/effects.nocomp:" + c, what: c + " is written below " + key, ok: false, where: writers(c)})
+			}
 		case "nowrite":
 			if eff.all {
 				out = append(out, effResult{fn: key, name: key + "/effects.nowrite:unknown", what: "the write effects of " + key + " cannot be bounded (dynamic call)", ok: false})
